@@ -237,7 +237,12 @@ def reader_msgs(stream_obj, bufsize=4096):
 def judge_reader_case(case, out):
     data, segs, bufsize = case["data"], case["segs"], case["bufsize"]
     ref, referr = reader_msgs(io.BytesIO(data))
-    sock = SegSocket(data, segs)
+    if case.get("sock_kind") == "readable":
+        from mc.doubles import ReadableSegSocket  # pylint: disable=import-outside-toplevel
+
+        sock = ReadableSegSocket(data, segs)
+    else:
+        sock = SegSocket(data, segs)
     try:
         got, goterr = reader_msgs(sock, bufsize)
     finally:
@@ -251,6 +256,70 @@ def judge_reader_case(case, out):
     out.extra["reader_executions"] = 1
     out.extra["reader_messages_compared"] = len(got)
     out.obs = core.h64(repr((case.get("name"), segs, bufsize, len(got))))
+
+
+def judge_ossock(case, out):
+    """
+    A GENUINE OS socket (socket.socketpair(): type(sock) is socket.socket, not a subclass) in
+    non-blocking mode or with a short time-out: the peer sends the stream in the given segments, and
+    after each segment the wrapper is drained with read(k) until it returns nothing -- so every
+    segment boundary is followed by a receive that FAULTS (BlockingIOError / TimeoutError) and reading
+    resumes when more data has arrived.  Single-threaded and deterministic: data written to one end
+    of a socketpair is readable at the other end at once.
+    """
+    import socket as _socket  # pylint: disable=import-outside-toplevel
+
+    from pyrtcm.socketwrapper import SocketWrapper  # pylint: disable=import-outside-toplevel
+
+    src, segs, k, bufsize = case["data"], case["segs"], case["k"], case["bufsize"]
+    a, b = _socket.socketpair()
+    try:
+        if case.get("mode") == "timeout":
+            b.settimeout(0.0005)
+        else:
+            b.setblocking(False)
+        got = bytearray()
+        if case.get("early"):
+            wrap = SocketWrapper(b, bufsize=bufsize)  # its first receive finds nothing
+        pos = 0
+        wrap_made = bool(case.get("early"))
+        for n in segs + [len(src)]:
+            part = src[pos:pos + n]
+            pos += len(part)
+            if part:
+                a.sendall(part)
+            if pos >= len(src):
+                a.close()
+            if not wrap_made:
+                wrap = SocketWrapper(b, bufsize=bufsize)
+                wrap_made = True
+            for _ in range(4 * len(src) + 16):
+                d = wrap.read(k)
+                if not d:
+                    break
+                got += d
+            if pos >= len(src):
+                break
+        for _ in range(4 * len(src) + 16):  # what a read(k) larger than the rest has left behind
+            d = wrap.read(1)
+            if not d:
+                break
+            got += d
+        if bytes(got) != src:
+            out.bad("bytes-lost-duplicated-or-reordered:os-socket",
+                    f"{case['name']}: peer sent {len(src)} bytes in segments {segs}; read({k}) with bufsize "
+                    f"{bufsize} over a genuine {case.get('mode', 'non-blocking')} OS socket delivered {len(got)} "
+                    f"bytes: {bytes(got)!r} instead of {src!r}")
+    except Exception as err:  # pylint: disable=broad-except
+        out.bad("wrapper-raises", f"{case['name']}: {type(err).__name__}: {str(err)[:100]}")
+    finally:
+        try:
+            a.close()
+        except OSError:
+            pass
+        b.close()
+    out.nontrivial = True
+    out.obs = core.h64(repr(sorted(case.items(), key=str)))
 
 
 def judge_longhaul(case, out):
@@ -350,6 +419,8 @@ def judge(case):
         judge_bfs_case(case, out)
     elif case["kind"] == "longhaul":
         judge_longhaul(case, out)
+    elif case["kind"] == "ossock":
+        judge_ossock(case, out)
     else:
         judge_reader_case(case, out)
     return out
@@ -400,6 +471,11 @@ def _work(item):
         for bs in bufsizes:
             case = {"kind": "reader", "name": name, "data": data, "segs": segs[:-1], "bufsize": bs}
             st.add(case, judge(case), keep_sample=(k == 5 and bs == bufsizes[0]))
+            if k % 4 == 0 and bs == bufsizes[0]:
+                # a socket kind with file-like methods of its own (TLS sockets have read()): the
+                # reader must go through its wrapper all the same
+                case = dict(case, sock_kind="readable")
+                st.add(case, judge(case))
     return st
 
 
@@ -438,6 +514,20 @@ def plan(tier):
         lh.append({"kind": "longhaul", "name": f"read({k}) over 1-byte segments", "n": k + 10,
                    "bufsize": 4096, "reads": [k, 10], "segs": [1]})
     for ch in core.chunks(lh, 3):
+        work.append(("longhaul", ch))
+    # genuine OS sockets with a fault after every segment: all compositions of a 10-byte stream
+    osrc = bytes(range(65, 75))
+    osc = []
+    for segs in compositions(len(osrc)):
+        for bufsize in (1, 3, 4096):
+            for k in (1, 3):
+                osc.append({"kind": "ossock", "name": "socketpair", "data": osrc, "segs": list(segs[:-1]),
+                            "k": k, "bufsize": bufsize, "early": len(segs) % 2 == 0})
+    for segs in ([3, 4], [1, 1, 1, 1, 1, 1, 1, 1, 1], [9], []):
+        for bufsize in (2, 4096):
+            osc.append({"kind": "ossock", "name": "socketpair/timeout", "data": osrc, "segs": segs, "k": 2,
+                        "bufsize": bufsize, "mode": "timeout", "early": True})
+    for ch in core.chunks(osc, 200):
         work.append(("longhaul", ch))
     # Part B
     alpha = items.wellformed("quick")
